@@ -9,6 +9,7 @@ import Gozod.Model.TagSwitch
 import Gozod.Model.TagsKnown
 import Gozod.Gen.TagSwitches
 import Gozod.Gen.TagTable
+import Gozod.Gen.TagTableX
 namespace Gozod.C06
 open Gozod.Tags Gozod.Tags.Sw Gozod.Gen
 
@@ -71,6 +72,12 @@ theorem c06_unreached_is_dropped :
   simp only [unreachedDropped, hsw, Bool.not_true, Bool.false_or] at this
   have := List.all_eq_true.mp this s hs
   simpa [hn, hd, hr, hv] using this
+
+/-- the NON-PROPERTY table of undocumented rule names (`Gen.tagTableX`, read by C13) is well formed: one verdict per
+    probe, for field types of the matrix.  No statement about the verdicts themselves. -/
+theorem c06_tableX_shape :
+    (tagTableX.all fun b => allFtys.contains b.1 && b.2.2.all fun c => c.2.length == b.2.1.length) = true := by
+  decide +kernel
 
 -- non-vacuity: cells that are reached, with the switch that reaches them
 example : reaches tagFacts .min ⟨false, .int64⟩ = true := by decide +kernel
